@@ -197,6 +197,12 @@ RCP<const Basic> Rational::rpowrat(const Integer &other) const
     if (other.is_one()) {
         return one;
     }
+    if (other.is_zero()) {
+        // 0**(p/q)
+        if (is_positive())
+            return zero;
+        return ComplexInf;
+    }
     RCP<const Integer> res;
     if (mp_fits_ulong_p(SymEngine::get_den(i))) {
         unsigned long den = mp_get_ui(SymEngine::get_den(i));
